@@ -8,6 +8,8 @@ import (
 	"fmt"
 	"strings"
 
+	dm "golang.org/x/net/dns/dnsmessage"
+
 	vu "golang.org/x/net/internal/verifutil"
 )
 
@@ -159,6 +161,125 @@ func mutate(r *vu.Rng, b []byte) []byte {
 	return b
 }
 
+// genLenMessage: a small message whose records are of the kinds that carry length octets inside
+// the RDATA (TXT strings, OPT options, SVCB parameters, unknown data) - packed without compression.
+func genLenMessage(r *vu.Rng) []byte {
+	for tries := 0; tries < 20; tries++ {
+		p := &namePool{}
+		n := 1 + r.Intn(3)
+		s := fmt.Sprintf("%d 0000000 0 0 0 %d", genU16(r), n)
+		for i := 0; i < n; i++ {
+			var body string
+			switch r.Intn(5) {
+			case 0, 1:
+				k := 1 + r.Intn(3)
+				body = fmt.Sprintf("TXT %d", k)
+				for j := 0; j < k; j++ {
+					body += " " + vu.Hex(r.Bytes(r.Intn(6)))
+				}
+			case 2:
+				body = "OPT" + genPairs(r, false, false)
+			case 3:
+				body = fmt.Sprintf("SVCB %d %s", genU16(r), hexS(p.gen(r, false))) + genPairs(r, true, false)
+			default:
+				body = fmt.Sprintf("UNK %d %s", 99+r.Intn(3), vu.Hex(r.Bytes(r.Intn(6))))
+			}
+			s += fmt.Sprintf(" %s 0 1 %d 0 %s", hexS(p.gen(r, false)), r.Intn(1000), body)
+		}
+		s += " 0 0"
+		if m, ok := parseMessage(strings.Fields(s)); ok {
+			if b, err := buildWith(m, false, 0); err == nil {
+				return b
+			}
+		}
+	}
+	return packValid(r)
+}
+
+// lengthOctets: offsets of the length octets of a packed message - RDLENGTH (low byte) of every
+// record, and inside TXT / OPT / SVCB / HTTPS RDATA every string / option / parameter length.
+// The last one of each record is listed twice (more weight: that is where an overrun escapes).
+func lengthOctets(b []byte) []int {
+	var p dm.Parser
+	if _, err := p.Start(b); err != nil || p.SkipAllQuestions() != nil {
+		return nil
+	}
+	var offs []int
+	hdrs := []func() (dm.ResourceHeader, error){p.AnswerHeader, p.AuthorityHeader, p.AdditionalHeader}
+	skips := []func() error{p.SkipAnswer, p.SkipAuthority, p.SkipAdditional}
+	for s := range hdrs {
+		for {
+			h, err := hdrs[s]()
+			if err != nil {
+				break
+			}
+			body := dm.VerifParserOff(&p)
+			end := body + int(h.Length)
+			if end > len(b) {
+				return offs
+			}
+			offs = append(offs, body-1)
+			var in []int
+			switch h.Type {
+			case dm.TypeTXT:
+				for i := body; i < end; i += 1 + int(b[i]) {
+					in = append(in, i)
+				}
+			case dm.TypeOPT:
+				for i := body; i+4 <= end; i += 4 + int(b[i+2])<<8 + int(b[i+3]) {
+					in = append(in, i+3)
+				}
+			case dm.TypeSVCB, dm.TypeHTTPS:
+				i := body + 2
+				for i < end && b[i] != 0 && b[i]&0xC0 == 0 { // target labels
+					in = append(in, i)
+					i += 1 + int(b[i])
+				}
+				for i++; i+4 <= end; i += 4 + int(b[i+2])<<8 + int(b[i+3]) {
+					in = append(in, i+3)
+				}
+			}
+			if len(in) > 0 {
+				in = append(in, in[len(in)-1])
+			}
+			offs = append(offs, in...)
+			if skips[s]() != nil {
+				return offs
+			}
+		}
+	}
+	return offs
+}
+
+// genLenPerturbed: one length octet +-1, with and without bytes following the message.
+func genLenPerturbed(r *vu.Rng) []byte {
+	b := genLenMessage(r)
+	if r.Chance(1, 4) {
+		b = packValid(r)
+	}
+	offs := lengthOctets(b)
+	b = append([]byte{}, b...)
+	if len(offs) > 0 {
+		i := offs[r.Intn(len(offs))]
+		if i < len(b) {
+			if r.Bool() {
+				b[i]++
+			} else {
+				b[i]--
+			}
+		}
+	}
+	switch r.Intn(4) {
+	case 0, 1: // data present after the message
+		b = append(b, r.Bytes(1+r.Intn(3))...)
+	case 2: // the last byte missing
+		if len(b) > 0 {
+			b = b[:len(b)-1]
+		}
+	}
+	return b
+}
+
 func msgOps(b []byte, r *vu.Rng) []string {
 	h := vu.Hex(b)
 	ops := []string{"unpack " + h, "skipall " + h}
@@ -206,6 +327,8 @@ func gen(r *vu.Rng, i int) []string {
 		return msgOps(packValid(r), r)
 	case k < 45: // valid message, unmutated
 		return msgOps(packValid(r), r)
+	case k < 62:
+		return msgOps(genLenPerturbed(r), r)
 	case k < 90:
 		return msgOps(mutate(r, packValid(r)), r)
 	case k < 95: // header + random tail
